@@ -76,6 +76,9 @@ func Stats(h *History) RunStats {
 		}
 		if is4xx(o.Status) {
 			s.Probes["rejected_4xx"]++
+			if o.Op.Corrupt != "" {
+				s.Probes["wrongly_typed_body_rejected"]++
+			}
 		}
 		if is5xx(o.Status) {
 			s.Probes["answered_5xx"]++
